@@ -116,6 +116,37 @@ func Load(repo, goarch string) (*Ctx, error) {
 			}
 			return b
 		}
+		// renamed declarations are read under their reference names (rename.go); up to three rounds (types first)
+		for round := 1; round <= 3; round++ {
+			ov, notes := undoRenames(mod, pkgs[0].Fset, readSrc)
+			if len(ov) == 0 {
+				break
+			}
+			next := map[string][]byte{}
+			for k, v := range overlay {
+				next[k] = v
+			}
+			for k, v := range ov {
+				next[k] = v
+			}
+			cfg2 := &packages.Config{Mode: packages.LoadAllSyntax, Dir: repo, Env: env, Tests: false, Overlay: next}
+			pkgs2, err2 := packages.Load(cfg2, "./...")
+			if err2 != nil || len(pkgs2) == 0 {
+				c.ExpandNotes = append(c.ExpandNotes, fmt.Sprintf("rename normalisation abandoned: %v", err2))
+				break
+			}
+			by2, mod2, errs2 := collect(pkgs2)
+			if len(errs2) > 0 || len(mod2) == 0 {
+				msg := ""
+				if len(errs2) > 0 {
+					msg = errs2[0]
+				}
+				c.ExpandNotes = append(c.ExpandNotes, "rename normalisation abandoned (the renamed program does not type-check: "+msg+")")
+				break
+			}
+			pkgs, by, mod, overlay = pkgs2, by2, mod2, next
+			c.ExpandNotes = append(c.ExpandNotes, notes...)
+		}
 		// helpers that the rules recognise by their construct (a one-byte bool writer, a string writer, a dispatch
 		// forwarder, the skip wrapper, a pool release) are kept as functions: the rules read them as such
 		skip := map[string]bool{}
